@@ -311,15 +311,49 @@ def r4_sites(ctx):
     counts = {}
     seen_keys = set()
 
+    SAFE = ("lowest-set-bit of a value tested non-zero", "hash", "generator-module")
+    RISKY = ("king-square", "lowest-set-bit (no non-zero guard found)", "generator-module-reachable")
+
+    pending = []
+    bound_of = {}
+
     def judge(skey, prov, f, line, what):
+        pending.append((skey, prov, f, line, what))
+
+    def judge_now(skey, prov, f, line, what, vanished):
+        """a site is judged by where its index comes from, wherever it stands: an index that is the lowest set bit
+        of a value tested non-zero, the bounded hash, or inside the table generator is in range by construction; a
+        king square or an unguarded lowest-set-bit needs its reviewed entry (exact key); a parameter is followed into
+        the callers; anything else is not read by this rule."""
         seen_keys.add(skey)
         r = reviewed.get(skey)
-        if r is None:
-            ok, msg = False, "new %s in %s (argument: %s): not in tables/unchecked_sites.json" % (what, f["display"], prov)
-        elif r["provenance"] != prov_class(prov):
-            ok, msg = False, "%s in %s: the square/index argument now comes from `%s`, the reviewed provenance was `%s`" % (what, f["display"], prov, r["provenance"])
-        else:
+        cls = prov_class(prov)
+        if r is not None and r["provenance"] == cls:
             ok, msg = True, ""
+        elif cls in SAFE or cls.startswith("parameter"):
+            ok, msg = True, ""        # (a parameter is judged at the callers below)
+        elif (cls in RISKY or prov.startswith(RISKY)) and [k for k in vanished_all.get(cls, []) if k.split("|")[0] == skey.split("|")[0]]:
+            # the same function held a reviewed site of this provenance (a call that passed this very value on): the
+            # callee was spliced in / split up, the value and its review are the same
+            r = reviewed[[k for k in vanished_all[cls] if k.split("|")[0] == skey.split("|")[0]][0]]
+            ok, msg = True, ""
+        elif (cls in RISKY or prov.startswith(RISKY)) and vanished.get(cls):
+            k_old = vanished[cls].pop(0)        # the reviewed site moved (its function was renamed / split / merged)
+            r = reviewed[k_old]
+            ok, msg = True, ""
+        elif cls in RISKY or prov.startswith(RISKY):
+            ok = False
+            msg = ("new %s in %s (argument: %s): not in tables/unchecked_sites.json" % (what, f["display"], prov)) if r is None else \
+                  ("%s in %s: the square/index argument now comes from `%s`, the reviewed provenance was `%s`" % (what, f["display"], prov, r["provenance"]))
+        else:
+            ub = bound_of.get(skey)
+            if ub is not None and ub < 64:
+                ok, msg = True, ""
+            elif ub is not None:
+                ok, msg = False, "%s in %s: the index `%s` can be as large as %d, the tables have 64 entries" % (what, f["display"], prov[:80], ub)
+            else:
+                ctx.lost(rid, "%s in %s: the index comes from `%s`, which this rule cannot bound" % (what, f["display"], prov[:80]))
+                return
         ctx.ob(rid, skey, ok, msg, ctx.where(f, line), sample={"site": skey, "provenance": prov, "reviewed": r["why"] if r else None})
 
     param_sites = {}
@@ -355,6 +389,13 @@ def r4_sites(ctx):
             judge(skey, prov, f, t["line"], "unchecked read")
             continue
         prov = square_provenance(f, ex, cfg, b, ex.operand(t["args"][1]))
+        if prov.startswith("other"):
+            from ..panics import upper_bound
+            from ..expr import Inliner
+            inl_ = Inliner(prog, only=lambda k_: k_.startswith("inkayaku_board::board::Move::"))
+            bound_of[skey] = upper_bound(inl_.expand(ex.operand(t["args"][1])), f)
+            if bound_of[skey] is not None and bound_of[skey] >= (1 << 31):
+                bound_of[skey] = None       # just the type's range: nothing known
         judge(skey, prov, f, t["line"], "call site of an unchecked table lookup")
         if prov.startswith("parameter") and caller not in wrappers:
             param_sites.setdefault(caller, set()).add(int(prov.split()[1]))
@@ -374,6 +415,14 @@ def r4_sites(ctx):
                 prov = square_provenance(f, ex, cfg, b, ex.operand(t["args"][pn - 1]))
                 skey = "%s|->%s(arg %d)|#%d" % (caller, fn.rsplit("::", 1)[-1], pn, n)
                 judge(skey, prov, f, t["line"], "caller of a function that passes its parameter to an unchecked lookup")
+    present = {p_[0] for p_ in pending}
+    vanished = {}
+    for k, r in reviewed.items():
+        if not k.startswith("_") and k not in present:
+            vanished.setdefault(r["provenance"], []).append(k)
+    vanished_all = {k: list(v) for k, v in vanished.items()}
+    for p_ in pending:
+        judge_now(*p_, vanished)
     stale = [k for k in reviewed if not k.startswith("_") and k not in seen_keys]
     ctx.extra["unchecked_sites"] = len(seen_keys)
     ctx.extra["reviewed_unchecked_sites_not_met"] = stale
